@@ -13,11 +13,24 @@ func verifNoTopology2(g *graph) ([]string, error) { return nil, nil }
 // VerifC03Step: all-or-nothing and truthful Result for one mutation on an idle machine with
 // handlers whose negotiation results are a symbolic veto table.
 func VerifC03Step() {
-	s := verifNewScn(vParam("n", 2), false, vParam("multi", 1) == 1, false, true, false, true)
+	s := verifNewScn(vParam("n", 2), vParam("auto", 0) == 1, vParam("multi", 1) == 1, false, true, true, true)
 	s.inject(true)
 	kind, called, res := s.mutate()
+	// the state right after the mutation's own transition (an auto mutation may follow in the same drain)
 	post := s.m.ActiveStates(nil)
 	postT := s.m.time(nil)
+	for _, e := range s.tr.log {
+		if e.kind == "end" {
+			postT = e.after
+			post = nil
+			for i, name := range s.m.stateNames {
+				if postT[i]%2 == 1 {
+					post = append(post, name)
+				}
+			}
+			break
+		}
+	}
 	vReach("step")
 	vLog("res", uint64(res))
 	vAssert("result-is-final", res == Executed || res == Canceled)
@@ -108,6 +121,25 @@ func VerifC03Early() {
 		ql := vU16()
 		vAssume(ql >= lim)
 		s.m.queueLen.Store(uint32(ql))
+	case 3:
+		// queue full, Exception called: only one pending Exception is let in
+		s.m.QueueLimit = 1
+		s.m.queueProcessing.Store(true) // somebody else is draining: mutations only get queued
+		s.m.queueLen.Store(1)
+		if vBool() {
+			verifInject(s.m, append(append(S{}, s.pre...), StateException), func(int) uint64 { return 0 })
+		}
+		wasErr := s.m.IsErr()
+		q0 := len(s.m.queue)
+		extra := verifSublist(s.names)
+		r := s.m.Add(append(S{StateException}, extra...), nil)
+		vReach("early")
+		if wasErr {
+			vAssert("full-queue-second-exception-canceled", r == Canceled && len(s.m.queue) == q0)
+		} else {
+			vAssert("full-queue-first-exception-queued", r != Canceled && len(s.m.queue) == q0+1)
+		}
+		return
 	case 2:
 		// a handler deadline was just hit: the machine is backing off
 		now := time.Now()
